@@ -242,6 +242,15 @@ class Transaction:
                 )
         else:
             self._validate_schema_against_table(schema)
+            # The argument only has to DESCRIBE the table's schema (same names,
+            # types, nullability); files are always written with the persisted
+            # schema itself. Writing with the caller's copy let a reordered
+            # field list produce parquet files pa.concat_tables cannot combine
+            # (every later scan failed), and re-numbered field ids store column
+            # bounds under the wrong ids (filtered scans silently lost rows).
+            table_schema = self._resolve_table_schema()
+            if table_schema is not None:
+                schema = table_schema
 
         # Create a data file with the records using UUID for uniqueness
         file_id = uuid.uuid4().hex[:16]  # Use 16 chars of UUID hex
